@@ -57,10 +57,11 @@ LEGACY_HOLDING = ["TypeOK", "PendingGuards", "DatainfoLast", "LocksScoped", "Cle
 LEGACY_INVARIANTS = [("InvI", "I"), ("InvIOther", "I"), ("InvDOther", "D"), ("InvAnn", "L"), ("InvLogNoTorn", "L")]
 # two processes
 TWO_HOLDING = ["TypeOK", "PendingGuards", "DatainfoLast", "IndexImpliesComplete", "LocksScoped", "Exclusion",
-               "LogHeaderOK", "InvDOther", "InvA", "InvAnn"]
-# expected to fail: racing constructors (log.tmp: one of them fails / a logged line is lost), racing store_key
-TWO_INVARIANTS = [("InvIOpen", "I"), ("InvLogNoTorn", "L"), ("InvIStore", "I")]
-ACTIONS = ["InitDirs", "OpenLogTmp", "CloseLogTmp", "RenameLog", "InitCommon", "MkKeyDirs", "TouchLock", "LockEx", "TouchPending",
+               "LogHeaderOK", "InvLogNoTorn", "InvI", "InvDOther", "InvA", "InvAnn"]
+TWO_INVARIANTS = []  # nothing is expected to fail with two processes any more (F11, F12 repaired)
+# for the record (Legacy <- LegacyTwo): racing constructors (log.tmp: one fails / a logged line is lost), racing store_key
+TWO_LEGACY_INVARIANTS = [("InvIOpen", "I"), ("InvLogNoTorn", "L"), ("InvIStore", "I")]
+ACTIONS = ["InitDirs", "InitLogTouchLock", "InitLogLockEx", "OpenLogTmp", "CloseLogTmp", "RenameLog", "InitCommon", "MkKeyDirs", "TouchLock", "LockEx", "TouchPending",
            "ListHashDir", "ReadDatainfo", "MkHashDir", "ScanDatasetNumbers", "TouchIndex", "OpenCsv", "CloseCsv",
            "OpenDatainfo", "CloseDatainfo", "MkModelDir", "OpenModel", "CloseModel", "MkMetaDir", "OpenResults",
            "CloseResults", "UnlinkPending", "Unlock", "StatLink", "Symlink", "AnnTouchLock", "AnnLockEx", "AnnReadAll",
@@ -223,7 +224,7 @@ def _collapse(labels):
 
 SILENT = {"Unlock", "StatLink", "ReadEntry"}  # steps without an audit event of their own / optional
 
-OPEN_STEPS = ("InitDirs", "OpenLogTmp", "CloseLogTmp", "RenameLog", "OpenLogHeader", "WriteLogHeader", "InitCommon")
+OPEN_STEPS = ("InitDirs", "InitLogTouchLock", "InitLogLockEx", "OpenLogTmp", "CloseLogTmp", "RenameLog", "OpenLogHeader", "WriteLogHeader", "InitCommon")
 ANN_STEPS = ("Symlink", "AnnTouchLock", "AnnLockEx", "AnnReadAll", "AnnOpenTmp", "AnnCloseTmp", "AnnRename", "AnnTruncate", "AnnWrite")
 
 
@@ -856,6 +857,10 @@ def main(tier: str, seed: int) -> int:
             w_two = _bg(_run_design, _cfg("ModelDB2P.cfg", sc, "two.cfg", T["two"], TWO_HOLDING), 8)
             for inv, letter in TWO_INVARIANTS:
                 w_twoprops.append((inv, letter, _bg(_run_prop, _cfg("ModelDB2P.cfg", sc, f"two_{inv}.cfg", T["two_props"], [inv]), sc / f"trace_two_{inv}.json", nw)))
+            for inv, letter in TWO_LEGACY_INVARIANTS:
+                cfgl = _cfg("ModelDB2P.cfg", sc, f"twolegacy_{inv}.cfg", T["two_props"], [inv])
+                cfgl.write_text(cfgl.read_text().replace("Legacy = {}", "Legacy <- LegacyTwo"))
+                w_legacy.append(("2P:" + inv, letter, _bg(_run_prop, cfgl, sc / f"trace_twolegacy_{inv}.json", nw)))
 
         chosen, nsig = _select_workloads(cases, tier, rng, T["extra_workloads"])
         workloads = [_ops_of_case(c) for c in chosen]
@@ -1045,7 +1050,7 @@ def main(tier: str, seed: int) -> int:
                 if res.violated:
                     raise core.MachineryError(f"ModelDB.tla (legacy protocol): {res.violated} violated")
             else:
-                legacy_findings.append(_design_entry(inv, letter, res, scen, "legacy run"))
+                legacy_findings.append(dict(_design_entry(inv.replace("2P:", ""), letter, res, scen, "legacy run"), invariant=inv))
             v.add_coverage(states=res.distinct, transitions=res.generated)
         if w_two is not None:
             two = w_two()
